@@ -1042,6 +1042,8 @@ class Filterbank(ABC):
             skipback=max_delay,
             **plan_kwargs,
         ):
+            # kernel accumulates into out_ar
+            out_ar[:] = 0
             kernels.subband(
                 data,
                 out_ar,
